@@ -999,6 +999,23 @@ def ob_locate_pixels(et):
                 raise Refuted(f"{et}: {int((e_int > 1e-6).sum())} of 25 integer grid points of [{x0},{x0 + 4}]^2 (grid listed with indexing='{indexing}') are evaluated wrongly (e.g. {wrong}, "
                               f"max error {e_int.max():.3g}); the same points as floats are exact", cex=dict(elemType=et, origin=x0, indexing=indexing, points=wrong), signature=f"locate:pixels:{et}",
                               replay=dict(confirmed=True, wrong=int((e_int > 1e-6).sum())))
+    # the rectangle [0,4] x [0,3] after a quarter turn: the nodes of a side sit at +-1e-16 of an integer line, the pixels of that line belong to the domain all the same
+    with contextlib.redirect_stdout(io.StringIO()):
+        mesh = Domain(Point(0, 0), Point(4, 3), 1.0).Mesh_2D([], ElemType[et], isOrganised=True)
+    mesh.Rotate(90, (0, 0, 0), (0, 0, 1))
+    nodal = f(np.asarray(mesh.coord))
+    YY, XX = np.meshgrid(np.arange(0, 5), np.arange(-3, 1), indexing="ij")
+    pts = np.stack([XX.ravel(), YY.ravel(), 0 * XX.ravel()], 1)
+    v_int = np.asarray(mesh.Evaluate_dofsValues_at_coordinates(pts, nodal)).ravel()
+    v_flt = np.asarray(mesh.Evaluate_dofsValues_at_coordinates(pts.astype(float), nodal)).ravel()
+    n += 1
+    e_int, e_flt = np.abs(v_int - f(pts)), np.abs(v_flt - f(pts))
+    if e_flt.max() > 1e-6:
+        raise Unsupported("the float queries themselves fail on the turned rectangle")
+    if e_int.max() > 1e-6:
+        wrong = pts[e_int > 1e-6][:4, :2].tolist()
+        raise Refuted(f"{et}: rectangle [0,4] x [0,3] turned by 90 degrees: {int((e_int > 1e-6).sum())} of 20 integer grid points are evaluated wrongly (e.g. {wrong}, max error {e_int.max():.3g}); "
+                      f"the same points as floats are exact", cex=dict(elemType=et, points=wrong, motion="Rotate(90)"), signature=f"locate:pixels:{et}:turned", replay=dict(confirmed=True, wrong=int((e_int > 1e-6).sum())))
     return Verdict(DISCHARGED, backend="native gmsh mesh", sub=n)
 
 
